@@ -1341,3 +1341,100 @@ Proof.
         exfalso. assert (C : key_eq k1 k = true) by (apply key_eq_norm; trivial). congruence. }
   rewrite G. split; [intros [?|?]; trivial; congruence | auto].
 Qed.
+
+(* ================================================================== lookup_spec *)
+Lemma as_key_wf item k : wf item -> as_key item = Some k -> key_wf k = true.
+Proof. destruct item; cbn; intros W H; inversion H; subst; cbn; trivial. Qed.
+
+Definition is_some {A} (o : option A) : bool := match o with Some _ => true | None => false end.
+
+Theorem lookup_spec m item k : wf (VMap m) -> wf item -> as_key item = Some k ->
+  (* an entry is found exactly when a key with the same normal form is stored *)
+  (forall v, map_get m k = Some v <-> exists k', In (k', v) m /\ key_norm k' = key_norm k) /\
+  (map_get m k <> None <-> In (key_norm k) (map K m)) /\
+  (* m[k], `k in m`, `m is containing(pat=k)` *)
+  get_item_map m item = ROk (match map_get m k with Some v => v | None => VUndef end) /\
+  contains (VMap m) item = ROk (is_some (map_get m k)) /\
+  test_containing (VMap m) item = ROk (is_some (map_get m k)) /\
+  (* m.k and m | get(key=k) for string keys, whatever the size of the map *)
+  (forall s f, item = VStr s f ->
+     get_attr (VMap m) s = map_get m k /\
+     forall d, filter_get m item d =
+       match map_get m k with
+       | Some v => ROk v
+       | None => match d with Some x => ROk x | None => RErr ErrMsg end
+       end).
+Proof.
+  intros Wm Wi Hk. apply wf_map in Wm as [Kw [Kd _]].
+  pose proof (as_key_wf _ _ Wi Hk) as Kk.
+  split; [|split; [|split; [|split; [|split]]]].
+  - intros v. apply map_get_spec; trivial.
+  - apply map_get_found_iff; trivial.
+  - unfold get_item_map. rewrite Hk. reflexivity.
+  - cbn. rewrite Hk. destruct (map_get m k); reflexivity.
+  - cbn. rewrite Hk. destruct (map_get m k); reflexivity.
+  - intros s f ->. cbn in Hk. inversion Hk; subst.
+    assert (E : map_get m (KStr s false) = map_get m (KStr s true)) by (apply map_get_norm; trivial).
+    split.
+    + rewrite get_attr_spec. exact E.
+    + intros d. cbn. rewrite E. reflexivity.
+Qed.
+
+(* not-a-key operands: m[x] is an error, `x in m` / containing are false *)
+Lemma lookup_non_key m item : as_key item = None ->
+  get_item_map m item = RErr ErrMsg /\ contains (VMap m) item = ROk false /\
+  test_containing (VMap m) item = ROk false.
+Proof. intros H. unfold get_item_map. cbn. rewrite H. auto. Qed.
+
+Theorem key_norm_sound :
+  (forall a b, key_wf a = true -> key_wf b = true -> (key_eq a b = true <-> key_norm a = key_norm b)) /\
+  (forall a b, key_wf a = true -> key_wf b = true -> key_cmp b a = CompOpp (key_cmp a b)) /\
+  (forall a b c, key_wf a = true -> key_wf b = true -> key_wf c = true ->
+     tr (key_cmp a b) (key_cmp b c) (key_cmp a c)) /\
+  (forall a b, key_wf a = true -> key_wf b = true -> (key_cmp a b = Eq <-> key_eq a b = true)) /\
+  (forall a, key_wf a = true -> key_hash a = nkey_hash (key_norm a)) /\
+  (forall a b, key_wf a = true -> key_wf b = true -> key_eq a b = true -> key_hash a = key_hash b).
+Proof.
+  split; [|split; [|split; [|split; [|split]]]].
+  - apply key_eq_norm.
+  - intros a b Ha Hb. rewrite !key_cmp_norm by assumption. apply nkey_cmp_opp.
+  - intros a b c Ha Hb Hc. rewrite !key_cmp_norm by assumption. apply nkey_cmp_tr.
+  - apply key_cmp_eq_iff.
+  - apply key_hash_norm.
+  - intros a b Ha Hb H. rewrite !key_hash_norm by assumption. apply key_eq_norm in H; trivial. congruence.
+Qed.
+
+(* the representation of a key never matters *)
+Lemma key_norm_repr : (forall r r' z, key_norm (KInt r z) = key_norm (KInt r' z)) /\
+                      (forall s o o', key_norm (KStr s o) = key_norm (KStr s o')).
+Proof. split; reflexivity. Qed.
+
+(* == is structural: arrays pointwise, maps entry-wise, strings ignore the safe mark *)
+Lemma veq_structural :
+  (forall s f f', veq (VStr s f) (VStr s f') = true) /\
+  (forall l l', veq (VArr l) (VArr l') = true <-> Forall2 (fun x y => veq x y = true) l l') /\
+  (forall m m', wf (VMap m) -> wf (VMap m') ->
+     (veq (VMap m) (VMap m') = true <->
+      length m = length m' /\
+      forall k v, In (k, v) m -> exists k' v', In (k', v') m' /\ key_norm k' = key_norm k /\ veq v v' = true)).
+Proof.
+  split; [|split].
+  - intros s f f'. cbn. apply list_eq2_N_eq. reflexivity.
+  - intros l. cbn [veq]. induction l as [|x t IH]; destruct l' as [|y t']; cbn; split; intros H;
+      try discriminate; try constructor; try (inversion H; fail).
+    + apply andb_true_iff in H. tauto.
+    + apply IH. apply andb_true_iff in H. tauto.
+    + inversion H; subst. apply andb_true_iff. split; trivial. apply IH; trivial.
+  - intros m m' Wm Wm'. apply wf_map in Wm as [Kw [Kd _]]. apply wf_map in Wm' as [Kw' [Kd' _]].
+    cbn [veq]. rewrite andb_true_iff, Nat.eqb_eq, all_b_Forall, Forall_forall.
+    unfold kwf in Kw. rewrite Forall_forall in Kw.
+    split; intros [Len H]; split; trivial.
+    + intros k v Hin. specialize (H (k, v) Hin). cbn in H.
+      destruct (map_get m' k) as [v'|] eqn:G; try discriminate.
+      apply map_get_spec in G; trivial; [|apply (Kw (k, v)); trivial].
+      destruct G as [k' [Hin' Q]]. eauto.
+    + intros [k v] Hin. cbn. destruct (H k v Hin) as [k' [v' [Hin' [Q E]]]].
+      assert (G : map_get m' k = Some v').
+      { apply map_get_spec; trivial. apply (Kw (k, v)); trivial. eauto. }
+      rewrite G. exact E.
+Qed.
